@@ -29,7 +29,8 @@ META = {
         'they cannot behave differently on a copy; (restore) no __init__ / '
         '__setstate__ / __deepcopy__ binds a class-level or module-level '
         'mutable container into an instance.'
-        ' (tokencls) sentinel classes do not intercept construction (no __init__/__new__ between schedula.Token and the module that creates the instance); (hooks) every custom __getstate__/__deepcopy__ keeps what calculations read and deep-copies what it shares - a __deepcopy__ built on copy.copy must deep-copy every attribute.'),
+        ' (tokencls) sentinel classes do not intercept construction (no __init__/__new__ between schedula.Token and the module that creates the instance); (hooks) every custom __getstate__/__deepcopy__ keeps what calculations read and deep-copies what it shares - a __deepcopy__ built on copy.copy must deep-copy every attribute.'
+        " (hooks, shallow) __getstate__ does not put a shallow copy of a dispatcher into the state (the dispatcher stores itself under sh.SELF); (self) compile does not re-point the model's own sh.SELF record."),
     'not_decided': (
         'Equality of results of the copy for all inputs, and what dill/copy do '
         'inside schedula objects.'),
